@@ -18,7 +18,7 @@ func init() {
 			"the last valid record of its newest (or a middle) segment: key size in {0,1,255,4096,65535}, value size in {2^15,2^16,2^20,2^24,2^27,2^30,2^31-1,PRNG}, " +
 			"both record types, followed by 0/1/10/64 further bytes. For every header the recovering Open is measured twice on the same file system with the " +
 			"same pinned hash seed - image with the tail and the same image without it - with differential meters: runtime TotalAlloc around Open, bytes read " +
-			"from segment files and the largest single read request (CrashFS). Violation if alloc(with)-alloc(without) > 2*tail bytes + 32 KiB, or segment " +
+			"from segment files and the largest single read request (CrashFS). Violation if alloc(with)-alloc(without) > 2*tail bytes + 64 KiB, or segment " +
 			"bytes read differ by more than 2*tail + 64 KiB, or a single read request exceeds the largest file + 64 KiB, or Open fails, or the contents differ " +
 			"from the decoder's replay of the valid prefix. No timing is judged. evaluations = measured recoveries of images with a tail; distinct_nontrivial = " +
 			"distinct (key size, value size, type, extra bytes, file system) with a claimed record size larger than the bytes present.",
@@ -60,6 +60,10 @@ func measureOpen(kind core.FSKind, im crashfs.Image, cfg core.Config, keys [][]b
 		if int64(len(d)) > m.maxFile {
 			m.maxFile = int64(len(d))
 		}
+	}
+	if env.Crash != nil {
+		// room for the call log of the recovering Open: the harness' own log must not reallocate while allocations are metered
+		env.Crash.Log = make([]crashfs.Op, 0, 8192)
 	}
 	var m0, m1 runtime.MemStats
 	runtime.GC()
@@ -214,7 +218,7 @@ func runC19(c *core.Ctx) {
 					fail("segment-length", fmt.Sprintf("segment %s is %d bytes after recovery, its valid prefix ends at %d (the tail was not discarded)", n, got, end))
 				}
 			}
-			allowed := uint64(2*len(tail) + 32<<10)
+			allowed := uint64(2*len(tail) + 64<<10)
 			if m.alloc > baseAllocMin[k] && m.alloc-baseAllocMin[k] > allowed {
 				fail("alloc-proportional-to-claim", fmt.Sprintf("Open allocated %d bytes with the tail vs %d..%d without it (difference %d > allowed %d)", m.alloc, baseAllocMin[k], baseAllocMax[k], m.alloc-baseAllocMin[k], allowed))
 			}
